@@ -125,6 +125,50 @@ pub fn check_family(env: &Env, p: Prof, fam: &[String], rec: &mut Rec) {
             }
         }
     }
+    // operands presented from reused buffers: members of equal byte length are written one after the other into
+    // the same String (same address, same length, different content) and compared with a third member; each
+    // result must equal the matrix entry of the strings' content (a memo keyed by slice identity shows here)
+    let mut bufa = String::with_capacity(fam.iter().map(|s| s.len()).max().unwrap_or(0) + 8);
+    let mut bufb = String::with_capacity(bufa.capacity());
+    for i in 0..n {
+        for j in 0..n {
+            if i >= j || fam[i].len() != fam[j].len() || fam[i] == fam[j] {
+                continue;
+            }
+            for k in [i, j, (i + j) % n] {
+                for side in 0..2 {
+                    let mut step = |x: usize, rec: &mut Rec| {
+                        let (got, want) = if side == 0 {
+                            bufa.clear();
+                            bufa.push_str(&fam[x]);
+                            (if k % 2 == 0 { api::compare(p, &bufa, &fam[k]) } else { api::s_compare(p, &bufa, &fam[k]) }, &m[x][k])
+                        } else {
+                            bufb.clear();
+                            bufb.push_str(&fam[x]);
+                            (if k % 2 == 0 { api::s_compare(p, &fam[k], &bufb) } else { api::compare(p, &fam[k], &bufb) }, &m[k][x])
+                        };
+                        rec.eval();
+                        rec.count("reused-buffer-operand");
+                        if &got != want {
+                            let (a, b) = if side == 0 { (x, k) } else { (k, x) };
+                            rec.violation(
+                                "compare-depends-on-operand-buffer-history",
+                                Witness {
+                                    op: format!("{}::compare with the {} operand in a reused buffer (previous content: \"{}\")", p.name(), if side == 0 { "first" } else { "second" }, util::esc(&fam[if x == i { j } else { i }])),
+                                    case: format!("profile={};a={};b={}", p.name(), util::esc(&fam[a]).replace(';', "\\u{3B}"), util::esc(&fam[b])),
+                                    expected: api::show(want),
+                                    observed: api::show(&got),
+                                },
+                            );
+                        }
+                    };
+                    step(i, rec);
+                    step(j, rec);
+                    step(i, rec);
+                }
+            }
+        }
+    }
     // relational monitors over the recorded matrix
     let case2 = |i: usize, j: usize| format!("profile={};a={};b={}", p.name(), util::esc(&fam[i]).replace(';', "\\u{3B}"), util::esc(&fam[j]));
     for i in 0..n {
@@ -200,7 +244,55 @@ fn family(env: &Env, rng: &mut Rng, j: usize) -> Vec<String> {
             f.push(b);
         }
     }
+    if j % 4 == 1 {
+        // a member of exactly the same byte length as another one (reused-buffer pass of check_family)
+        let k = rng.below(f.len());
+        if let Some(b) = super::hostile::same_length_variant(rng, &f[k]) {
+            f.push(b);
+        }
+    }
     f
+}
+
+/// every scalar value in a small cased context, as a pair of spellings that differ in case only: the
+/// comparison must follow the reference comparison forms for each of them (a fast path that mis-maps one
+/// rare character only after the string has started to change shows here)
+fn scalar_sweep(env: &Env, rec: &mut Rec) {
+    let all_ctx = !env.quick();
+    let chunk = 0x400u32;
+    let d6 = env.d6();
+    let r = par((0x110000 / chunk) as usize, |c, rec| {
+        for cp in (c as u32 * chunk)..((c as u32 + 1) * chunk) {
+            let ch = match char::from_u32(cp) {
+                Some(ch) => ch,
+                None => continue,
+            };
+            let low: String = ch.to_lowercase().collect();
+            let up: String = ch.to_uppercase().collect();
+            // quick tier: all four contexts for what the FreeformClass can contain, one for the rest
+            let valid = !matches!(crate::refmodel::derived(d6, cp).0, crate::refmodel::Abs::Disallowed | crate::refmodel::Abs::Unassigned);
+            for ctx in 0..4u32 {
+                if !all_ctx && !valid && ctx != cp % 4 {
+                    continue;
+                }
+                let fam: Vec<String> = match ctx {
+                    0 => vec![format!("A{}", ch), format!("a{}", low)],
+                    1 => vec![format!("{}A", ch), format!("{}a", up)],
+                    2 => vec![format!("Team 3{}4", ch), format!("team 3{}4", ch)],
+                    _ => vec![format!("{}", ch), low.clone(), up.clone()],
+                };
+                for p in ALL_PROF {
+                    check_family(env, p, &fam, rec);
+                }
+            }
+        }
+    });
+    rec.merge(r);
+    rec.exhaustive(if all_ctx {
+        "every Unicode scalar value in four cased contexts (A+c / a+lower(c); c+A / upper(c)+a; 'Team 3c4' / 'team 3c4'; c / lower(c) / upper(c)), all four profiles"
+    } else {
+        "every Unicode scalar value that is not DISALLOWED/UNASSIGNED in four cased contexts (A+c / a+lower(c); c+A / upper(c)+a; 'Team 3c4' / 'team 3c4'; c / lower(c) / upper(c)), every other scalar value in one of them (c mod 4), all four profiles"
+    });
 }
 
 pub fn run(env: &Env) -> Rec {
@@ -226,6 +318,7 @@ pub fn run(env: &Env) -> Rec {
         vec!["", " ", "\u{0}", "a\u{0}", "\u{378}", "a"],
         vec!["\u{5D0}1", "\u{5D0}", "1\u{5D0}", "\u{5D0}\u{661}", "\u{5D0}1\u{661}"],
     ];
+    scalar_sweep(env, &mut rec);
     for f in fixed {
         let fam: Vec<String> = f.iter().map(|s| s.to_string()).collect();
         for p in ALL_PROF {
